@@ -127,7 +127,8 @@ static void c01_run(int tier, long cfg)
   vk_cfg.sched_bound = 2;
   vk_cfg.vlimit = 32;
   vk_cfg.hello_lite = 1;
-  if (tier || cfg < na) {
+  if (cfg < na || (tier && nops <= 3)) {
+    /* faults: all endings x canonical histories, and (thorough) every history up to depth 3; depth 4 is explored without faults */
     vk_cfg.faults_on = 1;
     vk_cfg.fault_bound = 1;
     vk_cfg.fault_calls = (1ull << C_WAITPID) | (1ull << C_POLL) | (1ull << C_KILL);
